@@ -82,6 +82,24 @@ def _replay_surface(data):
     lo, hi = pro.bb()
     if not (np.all(lo <= (P - (pro.vdw_radii[:, None] + 3.8)).min(axis=0) + 1e-6) and np.all(hi >= (P + pro.vdw_radii[:, None] + 3.8).max(axis=0) - 1e-6)):
         bad.append("sampling box does not contain every atom +- (vdW + 3.8)")
+    # molecules whose extent differs strongly between the axes (each axis in turn the long one), away from the origin
+    from chmpy.surface import stockholder_weight_isosurface
+    for long_axis in range(3):
+        Pl = np.zeros((6, 3))
+        Pl[:, long_axis] = np.arange(6) * 1.3
+        Pl += np.array([2.0, -4.0, 1.0])
+        prl = PromoleculeDensity((np.array([6] * 6), Pl))
+        try:
+            isl = promolecule_density_isosurface(prl, sep=0.5, isovalue=0.01, smoothing=None)
+        except Exception as e:
+            bad.append("promolecule surface of a chain along axis %d raises %s: %s" % (long_axis, type(e).__name__, e))
+            continue
+        why = _mesh_ok(isl.vertices, isl.faces)
+        if why:
+            bad.append("promolecule surface of a chain along axis %d: %s" % (long_axis, why))
+        r2 = prl.rho(isl.vertices)
+        if np.abs(r2 - 0.01).max() > 0.01:
+            bad.append("promolecule surface of a chain along axis %d: vertices not on the isovalue" % long_axis)
     return bool(bad), bad
 
 
@@ -246,7 +264,13 @@ def part_glue(ctx):
         pth = ex.run(lambda: getattr(msf, fname)(dens, isovalue=0.5, sep=sep, smoothing=None))
         ctx.add_paths(ex)
         if not pth or any(p.exc is not None for p in pth):
-            ctx.harness_error("%s not executable symbolically: %r" % (fname, [p.exc for p in pth if p.exc is not None][:1]))
+            excs = [p.exc for p in pth if p.exc is not None]
+            if excs and not isinstance(excs[0], (symx.SymUnsupported, TypeError, AttributeError)):
+                # the function under test raises on a box with unequal extents: decided by the replay on real molecules
+                ctx.record("%s: runs on a sampling box with unequal extents" % fname, "counterexample", nontrivial=True)
+                ctx.violation("surf:glue", "%s raises %s: %s on the box %s..%s" % (fname, type(excs[0]).__name__, excs[0], lo.tolist(), hi.tolist()), {}, replay_surface)
+                return
+            ctx.harness_error("%s not executable symbolically: %r" % (fname, excs[:1]))
             continue
         iso = pth[0].value     # further paths only differ in comparisons made for logging
         shp, es, pts = state["shape"], state["edges"], cap["pts"]
@@ -261,6 +285,11 @@ def part_glue(ctx):
                 goals.append(z3.And(d.t <= eps, d.t >= -eps))
         r = ctx.query("%s: every vertex = (1-t) pts[a] + t pts[b] for the grid points the density was sampled at (%dx%dx%d grid, %d edges, tolerance 1e-5 for float32 grid coordinates)"
                       % (fname, shp[0], shp[1], shp[2], len(es)), [t.t >= 0, t.t <= 1], z3.And(goals))
+        # the sampled grid starts at the lower corner of the box and reaches the upper corner in every axis
+        span_ok = bool(np.allclose(pts.min(axis=0), lo, atol=1e-5) and np.all(pts.max(axis=0) >= hi - sep - 1e-5) and np.all(pts.max(axis=0) <= hi + 1e-5))
+        ctx.record("%s: sampling grid spans the density's bounding box in every axis (box with three different extents)" % fname, "holds" if span_ok else "counterexample", nontrivial=True)
+        if not span_ok:
+            bad.append(fname + " (grid does not span the box)")
         same = cap.get("verts_for_props") is iso.vertices or np.array_equal(np.asarray(cap.get("verts_for_props"), dtype=object), np.asarray(iso.vertices, dtype=object))
         ctx.record("%s: surface properties are evaluated at the returned vertices" % fname, "holds" if same else "counterexample", nontrivial=True)
         if r.verdict == "cex" or not same:
